@@ -8,6 +8,10 @@
 (* Many programs are concatenated with Reset events.  An event whose         *)
 (* precondition does not hold in the specification means the generator left  *)
 (* the contract: STUCK (a tool problem, never a verdict).                    *)
+(* Refused calls (SetNil, GetNoKey, HasNoKey, DeleteNoKey, SetNoKey on a      *)
+(* wrapper) are events like any other: the specification's step is Refused -- *)
+(* res = "panic", nothing changes -- so whatever the real call left behind    *)
+(* shows up as a MISMATCH of a later read, iteration or read of the parent.   *)
 (***************************************************************************)
 EXTENDS CacheKV
 
@@ -47,6 +51,7 @@ Applicable(e) ==
   CASE e.op = "Reset" -> TRUE
     [] e.op \in {"Get", "Has", "Set", "Delete", "IterAll"} -> e.s \in 0..MaxW /\ Usable(e.s)
     [] e.op = "Write" -> e.s \in W /\ Usable(e.s)
+    [] e.op \in RefusedOps -> e.s \in W /\ Usable(e.s)
     [] e.op = "Discard" -> e.s \in W /\ par[e.s] # -1
     [] e.op = "CacheWrap" -> e.s \in 0..MaxW /\ Usable(e.s) /\ Depth(e.s) < MaxDepth /\ FreeW # {} /\ e.n = MinOf(FreeW)
     [] e.op = "IterOpen" -> e.s \in W /\ Usable(e.s) /\ FreeIt # {} /\ e.it = MinOf(FreeIt)
@@ -71,6 +76,7 @@ Step(e) ==
   \/ e.op = "Write" /\ Write(e.s)
   \/ e.op = "Discard" /\ Discard(e.s)
   \/ e.op = "CacheWrap" /\ CacheWrap(e.s)
+  \/ e.op \in RefusedOps /\ Refused(e.s)
 
 TNext ==
   /\ l <= Len(Trace)
